@@ -63,12 +63,29 @@ def shard(col, shard_i, ngrammars, ninputs, full):
             g, kind = G.lrec_grammar(rng)
             texts = G.lrec_inputs(rng, ninputs, g=g)
             col.count('grammar.lrec.' + kind)
+        elif gi % 3 == 1:
+            # leaf rules whose values are plain strings, so that rejecting / raising actions fire (C06's family)
+            from props.c06 import simple_rule_grammar
+            g = simple_rule_grammar(rng)
+            texts = [t[:40] for t in G.gen_inputs(rng, g, ninputs)]
+            col.count('grammar.string-leaves')
         else:
             g = G.gen_grammar(rng, G.GenCfg(cuts=0.08), depth=rng.choice([2, 3, 3]))
             texts = [t[:40] for t in G.gen_inputs(rng, g, ninputs)]
             col.count('grammar.plain')
+        # @nomemo on some rules (never stored, re-evaluated on every invocation) and, for a third of the grammars, a semantics
+        # object whose actions reject (FailedSemantics), raise, tag or replace: memo settings must not change the outcome either way
+        if rng.random() < 0.4:
+            g = dict(g)
+            g['rules'] = [(n, (d + ['nomemo']) if (i > 0 and rng.random() < 0.4 and 'nomemo' not in d) else d, e) for i, (n, d, e) in enumerate(g['rules'])]
+            col.count('grammar.with-nomemo')
+        semspec = ('none', {})
+        if gi % 3 == 1:
+            from props.c06 import targeted_semspec
+            semspec = targeted_semspec(rng, g)
+            col.count('grammar.with-semantics')
         for t in texts:
-            grp = [R.Case(g, t, None, s, tag='lrec' if lrec else 'plain') for s in matrix(rng, lrec, full)]
+            grp = [R.Case(g, t, None, s, semspec, tag='lrec' if lrec else 'plain') for s in matrix(rng, lrec, full)]
             groups.append((len(cases), len(grp)))
             cases += grp
     # model vs implementation under every configuration
@@ -76,7 +93,7 @@ def shard(col, shard_i, ngrammars, ninputs, full):
     for off in range(0, len(cases), 400):
         results += R.run_cases(mr, cases[off:off + 400])
     for (c, io, mo, extra) in results:
-        fp = [E.grammar_text(c.g), c.text, c.settings.kwargs()]
+        fp = [E.grammar_text(c.g), c.text, c.settings.kwargs(), repr(c.semspec)]
         if mo is None:
             col.case(fp, nontrivial=False)
             col.count('uncompilable')
@@ -126,7 +143,7 @@ def shard(col, shard_i, ngrammars, ninputs, full):
 def main():
     chk = Check(PID)
     chk.rule = ('random non-left-recursive grammars (cut-heavy) and layered left-recursive template grammars x inputs, each run under a '
-                'matrix of settings {memoization} x {perlinememos 0.01/1/default} x {prune_memos_on_cut} x {parseinfo} + trace/colorize; '
+                'matrix of settings (rules optionally @nomemo; a third of the grammars with a semantics object whose actions reject, raise, tag or replace) {memoization} x {perlinememos 0.01/1/default} x {prune_memos_on_cut} x {parseinfo} + trace/colorize; '
                 'compared (a) implementation vs model under each setting, (b) implementation vs implementation across settings with '
                 'parseinfo entries erased. Non-trivial: non-empty input ending in success or ordinary failure; distinct by (grammar, input, settings).')
     chk.trusted += ['oracles per case from the real Python (re, unicode predicates, resolved ParserConfig incl. the memo capacity formula, lrec flags)',
